@@ -592,7 +592,8 @@ class SGen:
         n = self.pick(names)
         v = env[n]
         x = Var(n)
-        kind = self.pick(["like", "like", "reduce", "transpose", "concat", "cast", "shape", "matmul", "split", "topk", "unsq", "reshape", "gather", "cmp", "cumsum", "softmax", "minmax", "castlike"])
+        kind = self.pick(["like", "like", "reduce", "transpose", "concat", "cast", "shape", "matmul", "split", "topk", "unsq", "reshape", "gather", "cmp", "cumsum", "softmax", "minmax", "castlike",
+                          "where_lits", "pow_lit"])
         self.uses_op = True
         if kind == "like" or v.dtype == np.bool_:
             e = self.gen_like(v, env)
@@ -644,6 +645,17 @@ class SGen:
         if kind == "cmp":
             self.feats.add("literal:promoted")
             return Bin(self.pick(list(CMPOPS)), x, Lit(self.literal_for(v.dtype))), 1
+        if kind == "where_lits" and v.dtype != np.int32:
+            # literals in positions WITHOUT a typed sibling (both branches of Where): typed by their Python type alone, no CastLike
+            self.feats.add("literal:promoted")
+            self.feats.add("literal:untyped_position")
+            cond = Bin(self.pick(list(CMPOPS)), x, Lit(self.literal_for(v.dtype)))
+            a, b = self.pick([(1.0, 0.0), (0.0, 1.0), (1, 0), (2.0, -1.0), (0.5, 0.0), (3, -1), (True, False), (1.0, 2.0)])
+            return Call("Where", [cond, Lit(a), Lit(b)], {}), 1
+        if kind == "pow_lit" and v.dtype == np.float32 and v.size and np.abs(v).max() < 8:
+            self.feats.add("literal:promoted")
+            self.feats.add("literal:untyped_position")
+            return Call("Pow", [Lit(self.pick([2.0, 0.5, 1.0, 3.0])), x], {}), 1
         if kind == "cumsum" and v.ndim >= 1 and v.dtype != np.int32:
             self.feats.add("literal:promoted")
             return Call("CumSum", [x, Lit(0)], {}), 1
